@@ -210,12 +210,12 @@ Print Assumptions C08_collapse_transmit.
    but proved only for sequential histories (C08_order, C08_overrun). *)
 Theorem C08_seqlock_partial : forall cap k m hv c0 pre msgs nrecv sched,
   cap = 2 ^ k -> 5 <= k <= 30 -> conc_ok cap c0 pre msgs ->
-  let g := grun cap m hv (ginit cap c0 pre msgs nrecv) sched in
+  let g := grun cap m hv W64 (ginit cap c0 pre msgs nrecv) sched in
   g_s g = run_schedule m W64 hv cap (init_cstate cap c0 pre msgs nrecv) sched /\
   (g_ok g = true ->
    Forall (fun res => match res with RMsg ty bs => In (ty, bs) (transmitted_pre cap pre ++ msgs) | _ => True end)
           (r_out (c_rx (g_s g)))).
-Proof. intros cap k m hv c0 pre msgs nrecv sched Hc Hk. exact (seqlock_delivery cap k Hc Hk m hv c0 pre msgs nrecv sched). Qed.
+Proof. intros cap k m hv c0 pre msgs nrecv sched Hc Hk. exact (seqlock_delivery cap k Hc Hk m hv W64 ltac:(discriminate) c0 pre msgs nrecv sched). Qed.
 Print Assumptions C08_seqlock_partial.
 
 (* non-vacuity: a schedule in which the receiver is pre-empted inside its first receive while the transmitter
@@ -224,7 +224,7 @@ Example C08_seqlock_example :
   let pre := [(3847, payload 900 0)] in
   let msgs := [(5, payload 10 4); (1, payload 11 4); (3844, payload 12 0); (3845, payload 13 4)] in
   let sched := [1; 1; 0; 0; 0; 0; 0; 0; 0; 0; 0; 0; 0; 0; 0; 0; 0; 0; 0; 0; 0; 0; 0; 0; 0; 0; 0; 0; 0; 0; 0; 0; 1; 1; 1; 1; 1; 1; 1; 1; 1; 1; 1; 1; 1; 1; 1; 1] in
-  let g := grun 32 Debug true (ginit 32 1099511627792 pre msgs 3) sched in
+  let g := grun 32 Debug true W64 (ginit 32 1099511627792 pre msgs 3) sched in
   g_ok g = true /\ rev (r_out (c_rx (g_s g))) = [RErr UnableToKeepUp; RErr UnableToKeepUp; RNone] /\
   r_end (c_rx (g_s g)) = RLive.
 Proof. vm_compute. repeat split. Qed.
@@ -237,7 +237,7 @@ Example C08_lap_inside_receive_next_witness :
   let pre := [(3847, payload 900 4)] in
   let msgs := [(1, payload 10 1); (2, payload 11 1); (3843, payload 12 1)] in
   let sched := [0; 0; 0; 0; 0; 0; 0; 1; 1; 1; 1] ++ repeat 0 40%nat ++ repeat 1 40%nat in
-  let g := grun 32 Release true (ginit 32 1099511627784 pre msgs 2) sched in
+  let g := grun 32 Release true W64 (ginit 32 1099511627784 pre msgs 2) sched in
   conc_ok 32 1099511627784 pre msgs /\ g_ok g = false /\
   match r_out (c_rx (g_s g)) with
   | [RMsg 3847 bs; RErr UnableToKeepUp] => length bs = 114%nat /\ ~ In (3847, bs) (pre ++ msgs)
